@@ -439,8 +439,24 @@ def build(case: dict, world: World):
         xml = WH.descriptor_xml(storages, shots[::-1] if case["seed"] % 2 else shots,
                                 top_guid=(guids[-1] if (top_mode == "topguid" or (top_mode == "default_guid" and case["seed"] % 3)) else None),
                                 disk_sectors=case["nsectors"])
-        for fname, f in files.items():
-            world.fs.add(d + "/" + fname, f)
+        abs_live = case["loc"] == "absolute" and case["seed"] % 2 == 0 and not fault
+        if abs_live:
+            # the absolute paths the descriptor records still exist (the original bundle is mounted at its old place); files of the
+            # same names in the bundle being opened are something else (an outdated copy): the recorded path is what counts
+            world.fs.mount("/original")
+            for fname, f in files.items():
+                world.fs.add("/original/host/vm.pvm/disk.hdd/" + fname, f)
+                decoy = SimFile()
+                from hvsim.writers.common import put_poison
+
+                put_poison(decoy, 0, max(512, f.length // 512 * 512), 0xDEC0)
+                hdr = f.pread(0, 64)
+                decoy.write(0, hdr)  # a plausible header, other content
+                world.fs.add(d + "/" + fname, decoy)
+            world.probes["chain.hdd_absolute_paths_exist_next_to_same_named_files"] += 1
+        else:
+            for fname, f in files.items():
+                world.fs.add(d + "/" + fname, f)
         df = SimFile()
         df.write(0, xml.encode())
         world.fs.add(d + "/DiskDescriptor.xml", df)
